@@ -80,6 +80,12 @@ int main(int argc, char **argv) {
   if (!strcmp(argv[1], "linq")) {
     return drv_linq();
   }
+  if (!strcmp(argv[1], "sieve")) {
+    return drv_sieve();
+  }
+  if (!strcmp(argv[1], "world")) {
+    return drv_world();
+  }
   fprintf(stderr, "unknown driver %s\n", argv[1]);
   return 2;
 }
